@@ -1,1 +1,95 @@
-fn main(){}
+//! Calls the `msi_ffi` exports through the C ABI on every file given on the
+//! command line: get_information / free_information, then get_table /
+//! free_table for every reported table and one unknown table.
+//!
+//! Prints `FILE <path>` (flushed) before each file so that a supervisor can
+//! attribute an abort, and `DONE <files> <calls> <tables> <rows>` at the end.
+//! No allocation tracking of its own, so leak checkers see the library's
+//! allocations unobscured.
+
+use msi_ffi as _;
+use safer_ffi::prelude::*;
+use std::io::Write;
+
+#[repr(C)]
+pub struct MsiInformationMirror {
+    arch: repr_c::String,
+    author: repr_c::String,
+    comments: repr_c::String,
+    creating_application: repr_c::String,
+    creation_time: repr_c::String,
+    languages: repr_c::Vec<repr_c::String>,
+    subject: repr_c::String,
+    title: repr_c::String,
+    uuid: repr_c::String,
+    word_count: i32,
+    has_digital_signature: bool,
+    table_names: repr_c::Vec<repr_c::String>,
+}
+
+#[allow(improper_ctypes)]
+extern "C" {
+    fn get_information(path: char_p::Ref<'_>) -> MsiInformationMirror;
+    fn free_information(info: MsiInformationMirror);
+    fn get_table(path: char_p::Ref<'_>, table_name: char_p::Ref<'_>) -> repr_c::Vec<repr_c::Vec<repr_c::String>>;
+    fn free_table(table: repr_c::Vec<repr_c::Vec<repr_c::String>>);
+}
+
+fn main() {
+    let args: Vec<String> = std::env::args().skip(1).collect();
+    let mut files: Vec<String> = Vec::new();
+    for a in args {
+        if std::path::Path::new(&a).is_dir() {
+            let mut v: Vec<String> = std::fs::read_dir(&a).map(|d| d.filter_map(|e| e.ok()).map(|e| e.path().to_string_lossy().to_string()).collect()).unwrap_or_default();
+            v.sort();
+            files.extend(v);
+        } else {
+            files.push(a);
+        }
+    }
+    let out = std::io::stdout();
+    let (mut n_calls, mut n_tables, mut n_rows) = (0u64, 0u64, 0u64);
+    let mut checksum = 0u64;
+    for f in &files {
+        {
+            let mut o = out.lock();
+            let _ = writeln!(o, "FILE {}", f);
+            let _ = o.flush();
+        }
+        let cpath = match char_p::new(f.as_str()) {
+            p => p,
+        };
+        let info = unsafe { get_information(cpath.as_ref()) };
+        n_calls += 1;
+        // touch every field
+        for s in [&info.arch, &info.author, &info.comments, &info.creating_application, &info.creation_time, &info.subject, &info.title, &info.uuid] {
+            checksum = checksum.wrapping_add(s.len() as u64).wrapping_add(s.bytes().map(|b| b as u64).sum::<u64>());
+        }
+        checksum = checksum.wrapping_add(info.word_count as u64).wrapping_add(info.has_digital_signature as u64);
+        for l in info.languages.iter() {
+            checksum = checksum.wrapping_add(l.len() as u64);
+        }
+        let mut names: Vec<String> = info.table_names.iter().map(|s| s.to_string()).collect();
+        names.push("NoSuchTable".to_string());
+        unsafe { free_information(info) };
+        n_calls += 1;
+        for t in names.iter().take(12) {
+            if t.contains('\0') {
+                continue;
+            }
+            let ct = char_p::new(t.as_str());
+            let table = unsafe { get_table(cpath.as_ref(), ct.as_ref()) };
+            n_calls += 1;
+            n_tables += 1;
+            for row in table.iter() {
+                n_rows += 1;
+                for cell in row.iter() {
+                    checksum = checksum.wrapping_add(cell.len() as u64);
+                }
+            }
+            unsafe { free_table(table) };
+            n_calls += 1;
+        }
+    }
+    println!("DONE {} {} {} {} {}", files.len(), n_calls, n_tables, n_rows, checksum);
+}
